@@ -1,7 +1,6 @@
 package verifrepro
 
 import (
-	"net"
 	"testing"
 
 	"github.com/dolthub/vitess/go/sqltypes"
@@ -57,13 +56,6 @@ func TestC10RangeMapRuneEmptyInput(t *testing.T) {
 		}
 	})
 }
-
-type c10Addr struct{}
-
-func (c10Addr) Network() string { return "tcp" }
-func (c10Addr) String() string  { return "127.0.0.1:54321" }
-
-var _ net.Addr = c10Addr{}
 
 // C10-B1 / C40-U2 validateMysqlNativePassword/authResponse[i]: a client that answers the
 // mysql_native_password challenge with fewer than 20 bytes makes the server index past the end
